@@ -3,7 +3,7 @@ import hsuite
 from props.c03 import TRUSTED, ASSUMPTIONS
 COQCHK = False
 NAMES = ['c04', 'c05']
-PROFILE = {'quick': 500, 'thorough': 3000, 'lengths': [8, 14, 22], 'finale': ['settle'], 'weights': {'post': 26, 'frame': 22, 'upgrade': 6, 'open_ws': 5, 'poll': 6, 'send': 4, 'adv': 4, 'bad': 2, 'api': 1}, 'p_async': 0.45}
+PROFILE = {'quick': 500, 'thorough': 25000, 'lengths': [8, 14, 22], 'finale': ['settle'], 'weights': {'post': 26, 'frame': 22, 'upgrade': 6, 'open_ws': 5, 'poll': 6, 'send': 4, 'adv': 4, 'bad': 2, 'api': 1}, 'p_async': 0.45}
 RULE = ('seeded histories (opens with every connect outcome, polls, posts, upgrade handshakes, WebSocket frames and closes, application calls, refused requests, clock advances) over up to 4 sessions, each run on the threaded and the asyncio server and through the model; '
         'weighted towards POST bodies and frames built from every packet kind incl. undefined types, CLOSE/invalid packets at every position, undecodable and oversize bodies; both handler dispatch modes. distinct = distinct (server, configuration, stimuli)')
 
